@@ -80,8 +80,12 @@ type Table struct {
 func ColInt(typ byte, name string, unsigned bool) Column {
 	return Column{Type: typ, Name: name, Unsigned: unsigned, Nullable: true}
 }
-func ColFloat(name string) Column  { return Column{Type: TFloat, Meta: []byte{4}, Name: name, Nullable: true} }
-func ColDouble(name string) Column { return Column{Type: TDouble, Meta: []byte{8}, Name: name, Nullable: true} }
+func ColFloat(name string) Column {
+	return Column{Type: TFloat, Meta: []byte{4}, Name: name, Nullable: true}
+}
+func ColDouble(name string) Column {
+	return Column{Type: TDouble, Meta: []byte{8}, Name: name, Nullable: true}
+}
 func ColVarchar(name string, maxBytes int) Column {
 	return Column{Type: TVarchar, Meta: []byte{byte(maxBytes), byte(maxBytes >> 8)}, Name: name, Nullable: true}
 }
